@@ -31,6 +31,7 @@ var (
 	flagShard  = flag.Int("shard", 0, "")
 	flagShards = flag.Int("shards", 1, "")
 	flagBudget = flag.Float64("budget", 120, "seconds")
+	flagCur    = flag.String("cur", "", "file that receives the case being executed (crash attribution)")
 )
 
 // Events: sub<i> unsub<i> pub<j> tick (advance one batch window) half (advance
